@@ -219,17 +219,21 @@ def safe_id(iso):
     return True, v
 
 
-def observe(entry, rng, nreads):
-    """-> dict(ok, id, after, reads, error)"""
+def build_and_id(entry):
+    """-> (object or None, dict(ok, id, after, reads, error) or dict(skip))"""
     try:
         iso = materialise(entry)
     except RouteNotRealisable as e:
-        return {"skip": str(e)[:200]}
+        return None, {"skip": str(e)[:200]}
     except Exception as e:
-        return {"ok": False, "id": f"!construct:{type(e).__name__}", "after": "", "reads": [], "error": str(e)[:300]}
+        return None, {"ok": False, "id": f"!construct:{type(e).__name__}", "after": "", "reads": [], "error": str(e)[:300]}
     ok, ident = safe_id(iso)
-    out = {"ok": ok, "id": ident, "after": ident, "reads": [], "error": ""}
-    if not ok:
+    return iso, {"ok": ok, "id": ident, "after": ident, "reads": [], "error": ""}
+
+
+def do_reads(iso, entry, out, rng, nreads):
+    """A seeded sequence of read-only calls on the live object, then the identifier again."""
+    if iso is None or not out.get("ok"):
         return out
     alpha = read_alphabet(iso, entry["content"])
     for name, fn in (rng.sample(alpha, min(nreads, len(alpha))) if nreads else []):
@@ -238,9 +242,13 @@ def observe(entry, rng, nreads):
             out["reads"].append(name)
         except Exception as e:
             out["reads"].append(f"{name}!{type(e).__name__}")
-    ok2, after = safe_id(iso)
-    out["after"] = after
+    out["after"] = safe_id(iso)[1]
     return out
+
+
+def observe(entry, rng, nreads):
+    iso, out = build_and_id(entry)
+    return do_reads(iso, entry, out, rng, nreads)
 
 
 def worker(path_in, path_out):
